@@ -104,7 +104,8 @@ type frame struct {
 	caller           *frame
 	fn               *ssa.Function
 	block, prevBlock *ssa.BasicBlock
-	env              map[ssa.Value]value // dynamic values of SSA variables
+	env              []value // dynamic values of SSA variables, indexed by fi.idx
+	fi               *fnInfo
 	locals           []value
 	defers           *deferred
 	result           value
@@ -142,8 +143,13 @@ func (fr *frame) get(key ssa.Value) value {
 		fr.i.globals[key] = &cell
 		return &cell
 	}
-	if r, ok := fr.env[key]; ok {
-		return r
+	if i, ok := fr.fi.idx[key]; ok {
+		if r := fr.env[i]; r != nil {
+			if _, ok := r.(noValue); ok {
+				return nil
+			}
+			return r
+		}
 	}
 	panic(fmt.Sprintf("get: no value for %T: %v", key, key.Name()))
 }
@@ -201,6 +207,75 @@ func lookupMethod(i *interpreter, typ types.Type, meth *types.Func) *ssa.Functio
 }
 
 func (fr *frame) ps() *pathState { return fr.i.ps }
+
+// set stores the value of SSA variable key.  A nil interpreter value (e.g. the
+// result of a call without results) is stored as noValue so that "unset" can be
+// told apart.
+func (fr *frame) set(key ssa.Value, v value) {
+	if v == nil {
+		v = noValue{}
+	}
+	fr.env[fr.fi.idx[key]] = v
+}
+
+type noValue struct{}
+
+// fnInfo numbers the SSA values of a function (parameters, free variables,
+// locals and value-producing instructions) so that a frame's environment is a
+// slice instead of a map.
+type fnInfo struct {
+	idx      map[ssa.Value]int
+	n        int
+	name     string
+	nblocks  int
+	ext      externalFn
+	api      apiFn
+	skipInit bool
+	seenOnce bool
+}
+
+func (e *Engine) infoOf(fn *ssa.Function) *fnInfo {
+	if v, ok := e.fnInfos.Load(fn); ok {
+		return v.(*fnInfo)
+	}
+	fi := &fnInfo{idx: map[ssa.Value]int{}, name: fn.String(), nblocks: len(fn.Blocks)}
+	if fn.Parent() == nil {
+		fi.skipInit = fn.Synthetic == "package initializer" && fn.Pkg != nil && !e.runsInit(fn.Pkg)
+		fi.api = e.apiFor(fn)
+		fi.ext = externals[fi.name]
+	}
+	add := func(v ssa.Value) {
+		if _, ok := fi.idx[v]; !ok {
+			fi.idx[v] = fi.n
+			fi.n++
+		}
+	}
+	for _, p := range fn.Params {
+		add(p)
+	}
+	for _, fv := range fn.FreeVars {
+		add(fv)
+	}
+	for _, l := range fn.Locals {
+		add(l)
+	}
+	for _, b := range fn.Blocks {
+		for _, ins := range b.Instrs {
+			if v, ok := ins.(ssa.Value); ok {
+				add(v)
+			}
+		}
+	}
+	if fn.Recover != nil {
+		for _, ins := range fn.Recover.Instrs {
+			if v, ok := ins.(ssa.Value); ok {
+				add(v)
+			}
+		}
+	}
+	e.fnInfos.Store(fn, fi)
+	return fi
+}
 
 // truth decides a (possibly symbolic) boolean, forking if needed.
 func (fr *frame) truth(v value) bool {
@@ -328,35 +403,35 @@ func visitInstr(fr *frame, instr ssa.Instruction) continuation {
 		// no-op
 
 	case *ssa.UnOp:
-		fr.env[instr] = fr.unop(instr, fr.get(instr.X))
+		fr.set(instr, fr.unop(instr, fr.get(instr.X)))
 
 	case *ssa.BinOp:
-		fr.env[instr] = fr.binop(instr.Op, instr.X.Type(), fr.get(instr.X), fr.get(instr.Y))
+		fr.set(instr, fr.binop(instr.Op, instr.X.Type(), fr.get(instr.X), fr.get(instr.Y)))
 
 	case *ssa.Call:
 		fn, args := prepareCall(fr, &instr.Call)
-		fr.env[instr] = call(fr.i, fr, instr.Pos(), fn, args)
+		fr.set(instr, call(fr.i, fr, instr.Pos(), fn, args))
 
 	case *ssa.ChangeInterface:
-		fr.env[instr] = fr.get(instr.X)
+		fr.set(instr, fr.get(instr.X))
 
 	case *ssa.ChangeType:
-		fr.env[instr] = fr.get(instr.X) // (can't fail)
+		fr.set(instr, fr.get(instr.X)) // (can't fail)
 
 	case *ssa.Convert:
-		fr.env[instr] = fr.conv(instr.Type(), instr.X.Type(), fr.get(instr.X))
+		fr.set(instr, fr.conv(instr.Type(), instr.X.Type(), fr.get(instr.X)))
 
 	case *ssa.SliceToArrayPointer:
-		fr.env[instr] = sliceToArrayPointer(instr.Type(), instr.X.Type(), fr.get(instr.X))
+		fr.set(instr, sliceToArrayPointer(instr.Type(), instr.X.Type(), fr.get(instr.X)))
 
 	case *ssa.MakeInterface:
-		fr.env[instr] = iface{t: instr.X.Type(), v: fr.get(instr.X)}
+		fr.set(instr, iface{t: instr.X.Type(), v: fr.get(instr.X)})
 
 	case *ssa.Extract:
-		fr.env[instr] = fr.get(instr.Tuple).(tuple)[instr.Index]
+		fr.set(instr, fr.get(instr.Tuple).(tuple)[instr.Index])
 
 	case *ssa.Slice:
-		fr.env[instr] = fr.sliceOp(fr.get(instr.X), fr.get(instr.Low), fr.get(instr.High), fr.get(instr.Max))
+		fr.set(instr, fr.sliceOp(fr.get(instr.X), fr.get(instr.Low), fr.get(instr.High), fr.get(instr.Max)))
 
 	case *ssa.Return:
 		switch len(instr.Results) {
@@ -426,18 +501,18 @@ func visitInstr(fr *frame, instr ssa.Instruction) continuation {
 
 	case *ssa.MakeChan:
 		n := fr.concInt(fr.get(instr.Size), "chan size")
-		fr.env[instr] = ps.sched.newChannel(instr.Type().Underlying().(*types.Chan).Elem(), int(n))
+		fr.set(instr, ps.sched.newChannel(instr.Type().Underlying().(*types.Chan).Elem(), int(n)))
 
 	case *ssa.Alloc:
 		var addr *value
 		if instr.Heap {
 			// new
 			addr = new(value)
-			fr.env[instr] = addr
+			fr.set(instr, addr)
 			ps.allocConst(fr, fr.i.sizes.Sizeof(mustDeref(instr.Type())))
 		} else {
 			// local
-			addr = fr.env[instr].(*value)
+			addr = fr.env[fr.fi.idx[instr]].(*value)
 		}
 		*addr = zero(mustDeref(instr.Type()))
 
@@ -448,42 +523,42 @@ func visitInstr(fr *frame, instr ssa.Instruction) continuation {
 		for i := range sl {
 			sl[i] = zero(tElt)
 		}
-		fr.env[instr] = sl[:n]
+		fr.set(instr, sl[:n])
 
 	case *ssa.MakeMap:
-		fr.env[instr] = newOmap(instr.Type().Underlying().(*types.Map).Key())
+		fr.set(instr, newOmap(instr.Type().Underlying().(*types.Map).Key()))
 
 	case *ssa.Range:
 		if m, ok := fr.get(instr.X).(*omap); ok && m != nil {
 			ps.onRead(fr, m.cell())
 		}
-		fr.env[instr] = rangeIter(fr, fr.get(instr.X), instr.X.Type())
+		fr.set(instr, rangeIter(fr, fr.get(instr.X), instr.X.Type()))
 
 	case *ssa.Next:
-		fr.env[instr] = fr.get(instr.Iter).(iter).next()
+		fr.set(instr, fr.get(instr.Iter).(iter).next())
 
 	case *ssa.FieldAddr:
 		p := fr.get(instr.X).(*value)
 		if p == nil {
 			runtimePanic("invalid memory address or nil pointer dereference")
 		}
-		fr.env[instr] = &(*p).(structure)[instr.Field]
+		fr.set(instr, &(*p).(structure)[instr.Field])
 
 	case *ssa.Field:
-		fr.env[instr] = fr.get(instr.X).(structure)[instr.Field]
+		fr.set(instr, fr.get(instr.X).(structure)[instr.Field])
 
 	case *ssa.IndexAddr:
 		x := fr.get(instr.X)
 		idx := fr.get(instr.Index)
 		switch x := x.(type) {
 		case []value:
-			fr.env[instr] = &x[fr.concIndex(idx, len(x))]
+			fr.set(instr, &x[fr.concIndex(idx, len(x))])
 		case *value: // *array
 			if x == nil {
 				runtimePanic("invalid memory address or nil pointer dereference")
 			}
 			a := (*x).(array)
-			fr.env[instr] = &a[fr.concIndex(idx, len(a))]
+			fr.set(instr, &a[fr.concIndex(idx, len(a))])
 		default:
 			panic(fmt.Sprintf("unexpected x type in IndexAddr: %T", x))
 		}
@@ -494,17 +569,17 @@ func visitInstr(fr *frame, instr ssa.Instruction) continuation {
 
 		switch x := x.(type) {
 		case array:
-			fr.env[instr] = x[fr.concIndex(idx, len(x))]
+			fr.set(instr, x[fr.concIndex(idx, len(x))])
 		case string:
-			fr.env[instr] = x[fr.concIndex(idx, len(x))]
+			fr.set(instr, x[fr.concIndex(idx, len(x))])
 		case sstr:
-			fr.env[instr] = x.b[fr.concIndex(idx, len(x.b))]
+			fr.set(instr, x.b[fr.concIndex(idx, len(x.b))])
 		default:
 			panic(fmt.Sprintf("unexpected x type in Index: %T", x))
 		}
 
 	case *ssa.Lookup:
-		fr.env[instr] = fr.lookup(instr, fr.get(instr.X), fr.get(instr.Index))
+		fr.set(instr, fr.lookup(instr, fr.get(instr.X), fr.get(instr.Index)))
 
 	case *ssa.MapUpdate:
 		m := fr.get(instr.Map).(*omap)
@@ -515,20 +590,20 @@ func visitInstr(fr *frame, instr ssa.Instruction) continuation {
 		m.insert(ps, fr.get(instr.Key), fr.get(instr.Value))
 
 	case *ssa.TypeAssert:
-		fr.env[instr] = typeAssert(fr.i, instr, fr.get(instr.X).(iface))
+		fr.set(instr, typeAssert(fr.i, instr, fr.get(instr.X).(iface)))
 
 	case *ssa.MakeClosure:
 		var bindings []value
 		for _, binding := range instr.Bindings {
 			bindings = append(bindings, fr.get(binding))
 		}
-		fr.env[instr] = &closure{instr.Fn.(*ssa.Function), bindings}
+		fr.set(instr, &closure{instr.Fn.(*ssa.Function), bindings})
 
 	case *ssa.Phi:
 		panic("unreachable") // phis are processed at block entry
 
 	case *ssa.Select:
-		fr.env[instr] = fr.selectOp(instr)
+		fr.set(instr, fr.selectOp(instr))
 
 	default:
 		panic(fmt.Sprintf("unexpected instruction: %T", instr))
@@ -688,29 +763,25 @@ func callSSA(i *interpreter, caller *frame, callpos token.Pos, fn *ssa.Function,
 		caller: caller, // for panic/recover
 		fn:     fn,
 	}
+	fi := i.eng.infoOf(fn)
 	if fn.Parent() == nil {
-		name := fn.String()
-		if fn.Synthetic == "package initializer" && fn.Pkg != nil && !i.eng.runsInit(fn.Pkg) {
+		if fi.skipInit {
 			return nil
 		}
-		if api := i.eng.apiFor(fn); api != nil {
+		if fi.api != nil {
 			fr.ext = true
-			return api(fr, args)
+			return fi.api(fr, args)
 		}
-		if ext := externals[name]; ext != nil {
-			i.ps.stubs[name]++
+		if fi.ext != nil {
+			i.ps.stubs[fi.name]++
 			fr.ext = true
 			if caller != nil {
 				fr.pos = caller.pos
 			}
-			return ext(fr, args)
+			return fi.ext(fr, args)
 		}
 		if fn.Blocks == nil {
-			// generic instantiations and wrappers are built on demand
-			if fn.Synthetic != "" || fn.Origin() != nil {
-				// fallthrough to unsupported below if still empty
-			}
-			panic(unsupported{"no code for function: " + name})
+			panic(unsupported{"no code for function: " + fi.name})
 		}
 	}
 
@@ -718,20 +789,25 @@ func callSSA(i *interpreter, caller *frame, callpos token.Pos, fn *ssa.Function,
 	if fn.TypeParams().Len() > 0 && len(fn.TypeArgs()) == 0 {
 		panic(unsupported{"uninstantiated generic function " + fn.String()})
 	}
-	i.ps.fnSeen[fn.String()] = len(fn.Blocks)
+	if !fi.seenOnce {
+		// (benign race: worst case the name is recorded more than once)
+		fi.seenOnce = true
+	}
+	i.ps.fnSeenFi[fi] = struct{}{}
 
-	fr.env = make(map[ssa.Value]value)
+	fr.fi = fi
+	fr.env = make([]value, fr.fi.n)
 	fr.block = fn.Blocks[0]
 	fr.locals = make([]value, len(fn.Locals))
 	for i, l := range fn.Locals {
 		fr.locals[i] = zero(mustDeref(l.Type()))
-		fr.env[l] = &fr.locals[i]
+		fr.env[fr.fi.idx[l]] = &fr.locals[i]
 	}
 	for i, p := range fn.Params {
-		fr.env[p] = args[i]
+		fr.env[fr.fi.idx[p]] = args[i]
 	}
 	for i, fv := range fn.FreeVars {
-		fr.env[fv] = env[i]
+		fr.env[fr.fi.idx[fv]] = env[i]
 	}
 	var s0 int64
 	if fn.Synthetic == "package initializer" && os.Getenv("SYMGO_INITPROF") != "" {
@@ -818,7 +894,7 @@ func executePhis(fr *frame) []ssa.Instruction {
 			fr.phitemps = append(fr.phitemps, fr.get(phi.Edges[predIndex]))
 		}
 		for i, phi := range phis {
-			fr.env[phi.(*ssa.Phi)] = fr.phitemps[i]
+			fr.set(phi.(*ssa.Phi), fr.phitemps[i])
 		}
 	}
 	return nonPhis
@@ -870,7 +946,7 @@ func (fr *frame) atomicCtx() bool {
 
 func (fr *frame) doOp(op *pendingOp) {
 	s := fr.i.ps.sched
-	op.site = fr.i.ps.siteOf(fr)
+	op.fr = fr
 	isChan := op.kind == opSend || op.kind == opRecv || op.kind == opSelect
 	if !isChan && fr.atomicCtx() {
 		if s.tryInline(op) {
@@ -911,7 +987,7 @@ func (fr *frame) chanClose(ch *channel) {
 	// close never blocks; it is a visible operation nonetheless (also inside
 	// environment packages: its effect on waiting selects must be a declared
 	// transition for the sleep-set reduction to be sound)
-	fr.i.ps.sched.park(&pendingOp{kind: opResume, obj: ch, site: fr.i.ps.siteOf(fr)})
+	fr.i.ps.sched.park(&pendingOp{kind: opResume, obj: ch, fr: fr})
 	if ch.closed {
 		panic(targetPanic{iface{fr.i.runtimeErrorString, "close of closed channel"}})
 	}
